@@ -845,6 +845,22 @@ def reference_signal(case, solver, en, ant_twin, times):
     return ant_twin.signals[-1]
 
 
+def _pulse_floor(case, solver, en, times):
+    """Rounding floor of a received signal: 1e-11 x the peak of the emitted pulse (V/m -> V with
+    effective heights of the order of a metre).  An antenna whose polarization / directional
+    gain cancels the pulse exactly (orthogonal geometry) delivers rounding residue of that size,
+    ~20 orders below the pulse, about which relative agreement says nothing."""
+    try:
+        pulse = model_class(case["model"])(times=np.array(times), particle=en.particle,
+                                           viewing_angle=en.psi, viewing_distance=en.path.path_length,
+                                           ice_model=solver.ice)
+        v = np.asarray(pulse.values, dtype=float)
+        peak = float(np.max(np.abs(v))) if v.size and np.all(np.isfinite(v)) else 0.0
+    except Exception:
+        return 0.0
+    return 1e-11 * peak
+
+
 def _particle_facts(p):
     return (p.id, [float(x) for x in p.vertex], [float(x) for x in p.direction], float(p.energy),
             None if p.survival_weight is None else float(p.survival_weight),
@@ -1113,9 +1129,14 @@ def _run_case(case, rec, checks, tmpdir, opened):
                             # formula (atan2 and triple product here, arccos and rejection in the
                             # kernel), i.e. a few ulp amplified by the cone width (<1e-9 relative)
                             err = float(np.max(np.abs(got_v - want))) if want.size else 0.0
+                            floor = 1e-30
+                            if err > 1e-7 * scale + floor:
+                                floor += _pulse_floor(case, solver, en, times)
+                                if err <= 1e-7 * scale + floor:
+                                    classes.add("cancelled_to_rounding")
                             # (+1e-30 V: signals of ~1e-35 V are rounding noise of the models'
                             # far tails, relative agreement means nothing there)
-                            require(err <= 1e-7 * scale + 1e-30,
+                            require(err <= 1e-7 * scale + floor,
                                     "%s: signal differs from receive(propagate(model(psi=%.9f rad, "
                                     "distance=%r))) recomputed with fresh components: max |diff| = %r, "
                                     "max |expected| = %r, max |got| = %r (tracer %s, model %s, ai %r)",
